@@ -90,6 +90,7 @@ type fnVC struct {
 	entrySeq  map[*ssa.BasicBlock]int
 	addrSpace string
 	privCache map[*ssa.Alloc]bool
+	inRangeFact bool
 }
 
 func (v *fnVC) fresh(prefix string) string {
@@ -271,6 +272,11 @@ func (v *fnVC) frameAltsK(addr T, mapRef bool) ([]T, bool) {
 			t, _ := v.tr(ex, env)
 			v.P.add("inTree", inTreeDecl)
 			alts = append(alts, app("inTree", t, app("root", addr)))
+		case strings.HasPrefix(m, "obj("):
+			// every struct field of the object a pointer / value refers to (not the elements of backing arrays)
+			ex, _ := parseExpr(m[4 : len(m)-1])
+			t, ty := v.tr(ex, env)
+			alts = append(alts, and(eq(app("root", addr), v.refOf(t, ty)), not(eq(app("akind", addr), "(- 1)"))))
 		case strings.HasPrefix(m, "cell("):
 			// the whole cell a pointer (typically a captured variable) points to
 			ex, _ := parseExpr(m[5 : len(m)-1])
@@ -293,6 +299,26 @@ func (v *fnVC) frameAltsK(addr T, mapRef bool) ([]T, bool) {
 		}
 	}
 	return alts, true
+}
+
+// refOf: the heap object a pointer / value refers to (a sub-config value refers to its *Config).
+func (v *fnVC) refOf(t T, ty types.Type) T {
+	switch ty.Underlying().(type) {
+	case *types.Interface:
+		ref := app("ipay", t)
+		if pkg := v.e.typesPkg(modPrefix); pkg != nil {
+			if obj := pkg.Scope().Lookup("cfgSub"); obj != nil {
+				subN, _, _ := v.isModStruct(obj.Type())
+				tag := intLit(int64(v.P.tag(obj.Type())))
+				c := app(structName(subN)+"_c", app("un"+v.boxFn(obj.Type()), app("ipay", t)))
+				ref = ite(eq(app("itag", t), tag), c, ref)
+			}
+		}
+		return ref
+	case *types.Slice:
+		return app("sbase", t)
+	}
+	return t
 }
 
 // frameCheck: a written address must be fresh or covered by the function's modifies clause.
@@ -793,6 +819,18 @@ func (v *fnVC) rangeFact(t T, ty types.Type) T {
 		return or(eq(t, "0"), and(v.allocd(t), v.allocd(app("root", t))))
 	case *types.Interface:
 		rf := implies(app("isptrtag", app("itag", t)), or(eq(app("ipay", t), "0"), and(v.allocd(app("ipay", t)), v.allocd(app("root", app("ipay", t))))))
+		if pkg := v.e.typesPkg(modPrefix); pkg != nil {
+			nt, isNamed := ty.(*types.Named)
+			if obj := pkg.Scope().Lookup("cfgSub"); obj != nil && !v.inRangeFact && isNamed && nt.Obj().Name() == "value" && !strings.HasPrefix(t, "q_") {
+				// a sub-config travels as a boxed struct: the *Config it holds is nil or allocated
+				v.inRangeFact = true
+				subN, _, _ := v.isModStruct(obj.Type())
+				tag := intLit(int64(v.P.tag(obj.Type())))
+				c := app(structName(subN)+"_c", app("un"+v.boxFn(obj.Type()), app("ipay", t)))
+				rf = and(rf, implies(eq(app("itag", t), tag), or(eq(c, "0"), and(v.allocd(c), v.allocd(app("root", c))))))
+				v.inRangeFact = false
+			}
+		}
 		if n, ok := ty.(*types.Named); ok && n.Obj().Name() == "Error" && inModule(n) {
 			// a value of static type ucfg.Error is nil or its dynamic type implements Error (by typing)
 			rf = and(rf, or(eq(t, "(mkI 0 0)"), app("impl_ucfg_Error", app("itag", t))))
@@ -951,11 +989,27 @@ func (v *fnVC) prepare() {
 			}
 		}
 		// position: smallest pos of any instruction in header (approx); use first instr with pos in body
+		// source position of the loop: the first non-phi instruction of the header (the loop condition), which
+		// follows source order; phis carry the position of the variable's declaration and would confuse two
+		// loops over the same variable
 		li.pos = token.NoPos
-		for b := range li.body {
-			for _, in := range b.Instrs {
-				if p := in.Pos(); p.IsValid() && (!li.pos.IsValid() || p < li.pos) {
-					li.pos = p
+		for _, in := range li.header.Instrs {
+			if _, isPhi := in.(*ssa.Phi); isPhi {
+				continue
+			}
+			if p := in.Pos(); p.IsValid() && (!li.pos.IsValid() || p < li.pos) {
+				li.pos = p
+			}
+		}
+		if !li.pos.IsValid() {
+			for b := range li.body {
+				for _, in := range b.Instrs {
+					if _, isPhi := in.(*ssa.Phi); isPhi {
+						continue
+					}
+					if p := in.Pos(); p.IsValid() && (!li.pos.IsValid() || p < li.pos) {
+						li.pos = p
+					}
 				}
 			}
 		}
@@ -1186,7 +1240,7 @@ func (v *fnVC) run() {
 		// inTree(c, x) speaks about the configuration trees as they are at function entry: an object allocated
 		// later belongs to none of them (callee frames tree(t) are read the same way; DESIGN.md section 4)
 		v.memSrt[allocMem] = "Bool"
-		v.P.add("inTreeAlloc", fmt.Sprintf("(assert (forall ((c Int) (x Int)) (! (=> (inTree c x) (select %s x)) :pattern ((inTree c x)))))", v.mem0(allocMem)))
+		v.P.add("inTreeAlloc", fmt.Sprintf("(assert (forall ((c Int) (x Int)) (! (=> (inTree c x) (and (select %[1]s x) (select %[1]s c))) :pattern ((inTree c x)))))", v.mem0(allocMem)))
 		v.notes = append(v.notes, "assume: tree(c) denotes the objects of c's tree at function entry (treeOK: configuration trees share no objects; each child is merged at most once per call)")
 	}
 }
